@@ -90,7 +90,10 @@ def run(rep, pdb, tier):
         r = for_range(ctx, sets[0].loops[0])
         okd = r is not None and r[1] == num(0) and r[2] == DEG and not r[3] and sets[0].index == r[0] and len(sets[0].loops) == 1
         fs = facts(ctx, sets[0].node)
-        okd = okd and any(f[0] == "cmp" and f[1] == "<" and f[2] == num(3) and f[3] == DEG for f in fs)
+        def _ne(k_):
+            return any(f[0] == "cmp" and f[1] == "!=" and {f[2], f[3]} == {num(k_), DEG} for f in fs)
+        # degree > 3 stated as such, or as the last arm of `match degree { 0 => .., 1 => .., 2 => .., 3 => .., _ => .. }`
+        okd = okd and (any(f[0] == "cmp" and f[1] == "<" and f[2] == num(3) and f[3] == DEG for f in fs) or all(_ne(k_) for k_ in (0, 1, 2, 3)))
     rep.add("count/deflation-writes-all", "for degree > 3 the deflation loop writes poly_roots[j] for every j in (0..degree).rev()", okd, sets[0].node if sets else ps["body"], "")
     # ---- dispatch
     conds = []
@@ -100,7 +103,10 @@ def run(rep, pdb, tier):
             for a in cond_atoms(ctx, e["cond"], True):
                 if a[0] == "cmp" and DEG in (a[2], a[3]):
                     conds.append((a[1], a[2], a[3]))
-            e = strip(e["else"]) if e.get("else") is not None else {}
+            nxt_ = strip(e["else"]) if e.get("else") is not None else {}
+            if nxt_ and nxt_.get("k") != "If" and {("==", num(k_), DEG) for k_ in (0, 1, 2, 3)} <= {(o_, a_ if a_[0] == "num" else b_, DEG) for o_, a_, b_ in conds if o_ == "=="}:
+                conds.append(("<", num(3), DEG))       # the final `else` of a chain that tested 0, 1, 2 and 3: everything above
+            e = nxt_
     have = set()
     for op, a, b in conds:
         if op == "==" and a[0] == "num":
@@ -151,6 +157,11 @@ def run(rep, pdb, tier):
             ci = c2.term(cb.init) if cb is not None and cb.init is not None else None
             alloc2 = ci is not None and ci[0] == "call" and str(ci[1]).endswith("Vector<T>::new") and ci[2] == LEN(F(P(0), "coeffs"))
             ok = r is not None and r[1:5] == (num(0), LEN(F(P(0), "coeffs")), False, False) and e.index == r[0] and e.value == want and tt[2] == e.target and alloc2
+        if not ok and not real and not es and not pus and tt is not None and tt[0] == "call" and str(tt[1]).endswith("::poly_solve") and tt[3] == P(1):
+            # complex coefficients need no conversion: the whole vector cloned at once, `Vector::create(self.coeffs.clone())`
+            arg = tt[2]
+            argd = c2.def_term(arg) if arg[0] == "var" and c2.def_term(arg) is not None else arg
+            ok = argd == ("call", "vector::Vector<T>::create", F(P(0), "coeffs")) and not c2.mutations.get(arg, []) if arg[0] == "var" else argd == ("call", "vector::Vector<T>::create", F(P(0), "coeffs"))
         rep.add(key, rule, ok, fn["body"], "", where=loc(fn["body"]))
         rule_termination(rep, pdb, fn, "termination/%s" % ("f64" if real else "Cmplx"))
     # ---- divisors
@@ -406,8 +417,11 @@ def run(rep, pdb, tier):
         lctx = Ctx.for_fn(pdb, lag)
         lag_pure = not lctx.mutations.get(P(0))
         other_mut = [m for (kind, m) in ctx.mutations.get(a0, []) if not (m.get("k") == "AddrOf" and any(x is c for x in ancestors(m)))] if a0[0] == "var" else ["?"]
-        ok = r is not None and r[1:5] == (num(0), DEG, False, False) and a1 == ("idx", roots, r[0]) and adef == P(0) and lag_pure and not other_mut
-        det = "j in 0..degree=%s polishes poly_roots[j]=%s against coeffs.clone()=%s laguer never writes its coefficient argument=%s no other write=%s" % (
+        full_ = r is not None and (r[1:5] == (num(0), DEG, False, False) or (r[1] == num(0) and r[2] in (("len", ("field", roots, "vec")), ("len", roots)) and not r[3] and not r[4]))
+        elem_ = r is not None and a1 in (("idx", roots, r[0]), ("idx", ("field", roots, "vec"), r[0]))
+        det0 = "r=%s a1=%s" % (r, a1)
+        ok = full_ and elem_ and adef == P(0) and lag_pure and not other_mut
+        det = det0 + " j in 0..degree=%s polishes poly_roots[j]=%s against coeffs.clone()=%s laguer never writes its coefficient argument=%s no other write=%s" % (
             r is not None and r[1:5] == (num(0), DEG, False, False), a1 == ("idx", roots, r[0]) if r else None, adef == P(0), lag_pure, not other_mut)
     rep.add("polish", rule, ok, pol[0] if pol else ps["body"], det)
     # ---- deflate
